@@ -160,6 +160,9 @@ macro_rules! impl_inner_observer {
         let mut inner = self.0.rc_deref_mut();
         if let Some(data) = inner.as_mut() {
           if let Some(task) = data.subscribe_tasks.pop_front() {
+            // release the cell first: the deferred subscription may emit
+            // synchronously and re-enter this very cell
+            drop(inner);
             task();
           } else {
             data.subscribed -= 1;
